@@ -179,7 +179,7 @@ def admit(hint, k):
 
 
 def comps_of(nodes, chans, roots, with_wf):
-    """the composites of the pickled object, innermost first, as the six fields of the model's `Comp`; the lookup
+    """the composites of the pickled object, innermost first, as the seven fields of the model's `Comp`; the lookup
     tables are the label resolution children[owner label].panel[label], computed from the labels alone"""
     out = []
 
@@ -205,7 +205,7 @@ def comps_of(nodes, chans, roots, with_wf):
             mine = {chans[c]["label"]: c for c in own["outs"]}
             rm = [(c["id"], mine[c["label"]]) for c in chans if c["panel"] == "out" and c["label"] in mine]
         return {"I": ins, "RO": table(kids, "out"), "MI": [] if own is None else list(own["ins"]),
-                "RI": table(kids, "in"), "CO": [] if own is None else couts, "RM": rm}
+                "RI": table(kids, "in"), "KO": couts, "CO": [] if own is None else couts, "RM": rm}
 
     def visit(n):
         for kid in nodes[n]["kids"]:
@@ -866,9 +866,10 @@ _VARIANT = None
 
 
 def _variant():
-    """which `__setstate__` the library under test has (the two switches of the model's Cfg), probed once per worker
-    on three tiny objects: does a restored input keep the order of its connections, is a re-forged input / output value
-    link pushed through the receiver's setter.  This only selects the model variant to compare with; the oracle does not know it."""
+    """which `__getstate__` / `__setstate__` the library under test has (the five switches of the model's Cfg), probed
+    once per worker on tiny objects: does a restored input keep the order of its connections, is a re-forged input /
+    output value link pushed through the receiver's setter, is a connection across a macro's border stored, must every
+    macro input have a receiver.  This only selects the model variant to compare with; the oracle does not know it."""
     global _VARIANT
     if _VARIANT is not None:
         return _VARIANT
@@ -878,7 +879,7 @@ def _variant():
 
     from . import nodes_c03 as N
 
-    rev, push, pusho = 0, 0, 1
+    rev, push, pusho, own, allin = 1, 0, 0, 1, 0
     try:
         wf = Workflow("probe", autoload=None)
         a, b, c = N.SrcU(label="a"), N.SrcU(label="b"), N.C3(label="c")
@@ -906,7 +907,27 @@ def _variant():
         pusho = int(_canon(m2.outputs.oz.value) == "7")
     except Exception:  # noqa: BLE001
         pass
-    _VARIANT = (rev, push, pusho)
+    try:
+        m, a = N.MU(label="m"), N.SrcU(label="a")
+        m.children["c"].inputs.z.connect(a.outputs.o)
+        try:
+            pickle.loads(pickle.dumps(m))
+            own = 1
+        except KeyError:
+            own = 0
+    except Exception:  # noqa: BLE001
+        pass
+    try:
+        m = N.MU(label="m")
+        m.inputs.z.value_receiver = None
+        try:
+            pickle.loads(pickle.dumps(m))
+            allin = 0
+        except AttributeError:
+            allin = 1
+    except Exception:  # noqa: BLE001
+        pass
+    _VARIANT = (rev, push, pusho, own, allin)
     return _VARIANT
 
 
@@ -1124,7 +1145,7 @@ def _rtline(nodes, chans, roots, with_wf):
     groups = []
     for c in comps_of(nodes, chans, roots, with_wf):
         groups.append(f"| I={_csv(c['I'])} RO={_csv(f'{a}:{b}' for a, b in c['RO'])} MI={_csv(c['MI'])} "
-                      f"RI={_csv(f'{a}:{b}' for a, b in c['RI'])} CO={_csv(c['CO'])} "
+                      f"RI={_csv(f'{a}:{b}' for a, b in c['RI'])} KO={_csv(c['KO'])} CO={_csv(c['CO'])} "
                       f"RM={_csv(f'{a}:{b}' for a, b in c['RM'])}")
     return f"rt {' '.join(map(str, scope_of(nodes, roots)))} {' '.join(groups)}".rstrip()
 
@@ -1132,8 +1153,7 @@ def _rtline(nodes, chans, roots, with_wf):
 def model_input(case, impl=None):
     nodes, chans, links = layout(case["nodes"])
     lines = []
-    rev, push, pusho = (impl or {}).get("variant") or (0, 0, 1)
-    lines.append(f"cfg {rev} {push} {pusho}")
+    lines.append("cfg " + " ".join(map(str, (impl or {}).get("variant") or (1, 0, 0, 1, 0))))
     for c in chans:
         lines.append(f"chan {c['id']} {'di' if c['panel'] == 'in' else 'do'} {c['node']} "
                      f"{0 if c['hint'] is None else 1} 1")
